@@ -526,6 +526,19 @@ func qRandomSort(r *rng, maxLen int) []qSortField {
 	return fs
 }
 
+// qTwinDataset duplicates every row under a second id (same cells)
+func qTwinDataset(d *qDataset) *qDataset {
+	out := &qDataset{hasNaN: d.hasNaN}
+	for _, r := range d.rows {
+		out.rows = append(out.rows, r)
+	}
+	for _, r := range d.rows {
+		out.rows = append(out.rows, qRow{id: r.id + "~twin", cells: append([]qCell{}, r.cells...)})
+	}
+	sort.Slice(out.rows, func(i, j int) bool { return out.rows[i].id < out.rows[j].id })
+	return out
+}
+
 // every single-key specification, the empty one and id-first combinations
 func qSystematicSorts() [][]qSortField {
 	out := [][]qSortField{nil}
@@ -631,6 +644,12 @@ func runC02(o *opts) error {
 		d := qGenDataset(r, n, nan)
 		if di == 0 {
 			d = qProbeDataset()
+			n = len(d.rows)
+		}
+		if di == 3 {
+			// twins: every row occurs twice under different ids with identical cells, so that rows tie on
+			// EVERY sort key (also on exactly SortMax keys) and only the implicit id tie-breaker separates them
+			d = qTwinDataset(qGenDataset(r, 4, false))
 			n = len(d.rows)
 		}
 		store, err := qb.load(d)
